@@ -221,6 +221,66 @@ func ruleOPT1(c *Ctx) {
 		}
 	}
 	c.Check(okOrder && n >= 15, "Expression.Evaluate / operands are passed left, right", p.Pos(efn.Pos()), fmt.Sprintf("%d operator calls take (left value, right value)", n), "an operator function receives its operands swapped or from another source")
+	// ... and the value of an operator node is what its operator function returned: no path computes it some other way
+	// (a "fast path" for operands of the same type compares two times field by field, location pointer included, where
+	// the operator function compares instants: round-5 seed C19/a)
+	valueF := p.Field("ast", "Expression", "Value")
+	isOpResult := func(v ssa.Value) bool {
+		ex, ok := unspill(v).(*ssa.Extract)
+		if !ok || ex.Index != 0 {
+			return false
+		}
+		call, ok := ex.Tuple.(*ssa.Call)
+		if !ok {
+			return false
+		}
+		callee := call.Call.StaticCallee()
+		// the 15 binary functions, or EvaluateLogicSingle whose result the && / || section leaves in the same variable
+		return callee != nil && fnPkgShort(callee) == "pkg" && strings.HasPrefix(callee.Name(), "Evaluate")
+	}
+	var leaves func(v ssa.Value, seen map[ssa.Value]bool, out *[]ssa.Value)
+	leaves = func(v ssa.Value, seen map[ssa.Value]bool, out *[]ssa.Value) {
+		v = unspill(v)
+		if seen[v] {
+			return
+		}
+		seen[v] = true
+		if ph, ok := v.(*ssa.Phi); ok {
+			for _, e := range ph.Edges {
+				leaves(e, seen, out)
+			}
+			return
+		}
+		*out = append(*out, v)
+	}
+	shortcut, nOpStores := "", 0
+	for _, b := range efn.Blocks {
+		for _, in := range b.Instrs {
+			f, base, val := fieldStore(in)
+			if f != valueF || base != ssa.Value(receiver(efn)) {
+				continue
+			}
+			var ls []ssa.Value
+			leaves(val, map[ssa.Value]bool{}, &ls)
+			fromOp := false
+			for _, l := range ls {
+				if isOpResult(l) {
+					fromOp = true
+				}
+			}
+			if !fromOp {
+				continue
+			}
+			nOpStores++
+			for _, l := range ls {
+				if isOpResult(l) || isZeroValue(l) {
+					continue
+				}
+				shortcut = fmt.Sprintf("at %s the value of an operator node can be %s, which no operator function returned", p.InstrPos(in), l.String())
+			}
+		}
+	}
+	c.Check(shortcut == "" && nOpStores >= 1, "Expression.Evaluate / the value of an operator node is the result of its operator function", p.Pos(efn.Pos()), fmt.Sprintf("%d store(s) of operator results, every incoming value is the first result of a pkg.Evaluate* call", nOpStores), shortcut+": that path bypasses the kind tables OPT-9/10 decide (time operands compared as structs instead of instants, mixed signed/unsigned, ...), so the six comparisons no longer agree with each other")
 	c.Check(untouched && n >= 15, "Expression.Evaluate / operand values reach the operator functions unchanged", p.Pos(efn.Pos()), "arguments are the very results of the two operand evaluations", "an operand is adjusted between its evaluation and the operator function (at "+where+"): the value compared or computed with is no longer the value of the operand (e.g. a literal converted to the other operand's narrower type wraps around)")
 }
 
@@ -698,12 +758,39 @@ func ruleOPT5(c *Ctx) {
 		c.AnchorLost("ExitIntegerLiteral")
 	} else {
 		ok := false
+		why := "integer literals are not decoded with base 0 / 64 bit: octal and hex notations or large values denote another value"
 		for _, ci := range findCalls(fn, matchPkgFunc("strconv", "ParseInt")) {
 			base, ok1 := constInt(ci.Common().Args[1])
 			bits, ok2 := constInt(ci.Common().Args[2])
 			ok = ok1 && ok2 && base == 0 && bits == 64 && calleeNameIs(asCall(ci.Common().Args[0]), "GetText")
 		}
-		c.Check(ok, "ExitIntegerLiteral / strconv.ParseInt(text, 0, 64)", p.Pos(fn.Pos()), "base 0 (decimal, octal, hex prefixes), 64 bit", "integer literals are not decoded with base 0 / 64 bit: octal and hex notations or large values denote another value")
+		// every decoding call in the callback is that one, on the text of the literal's own context: the optional MINUS
+		// belongs to the decimal, hexadecimal and octal literal alike, and a value decoded from a child token loses it
+		for _, ci := range callsIn(fn) {
+			callee := ci.Common().StaticCallee()
+			if callee == nil || callee.Pkg == nil || callee.Pkg.Pkg.Path() != "strconv" || !(strings.HasPrefix(callee.Name(), "Parse") || callee.Name() == "Atoi") {
+				continue
+			}
+			textCall := asCall(ci.Common().Args[0])
+			ownText := false
+			if textCall != nil && calleeNameIs(textCall, "GetText") && len(fn.Params) >= 2 {
+				var rv ssa.Value
+				if textCall.Common().IsInvoke() {
+					rv = textCall.Common().Value
+				} else if len(textCall.Common().Args) > 0 {
+					rv = textCall.Common().Args[0]
+					if fa, isFA := rv.(*ssa.FieldAddr); isFA {
+						rv = fa.X
+					}
+				}
+				ownText = unspill(rv) == ssa.Value(fn.Params[1])
+			}
+			if callee.Name() != "ParseInt" || !ownText {
+				ok = false
+				why = "a literal is decoded by " + callee.Name() + " at " + p.InstrPos(ci.(ssa.Instruction)) + " from something other than the whole text of the literal's own context: the sign (salience -0x10, F.X == -0x1F) or the notation is lost on that path"
+			}
+		}
+		c.Check(ok, "ExitIntegerLiteral / strconv.ParseInt(text, 0, 64)", p.Pos(fn.Pos()), "base 0 (decimal, octal, hex prefixes), 64 bit, the only decoding call, on the context's own text", why)
 	}
 	if fn := lm("ExitFloatLiteral"); fn == nil {
 		c.AnchorLost("ExitFloatLiteral")
@@ -721,6 +808,23 @@ func ruleOPT5(c *Ctx) {
 		uq := p.Func("antlr", "unquoteString")
 		ok := uq != nil && len(findCalls(fn, matchStatic(uq))) == 1
 		c.Check(ok, "ExitStringLiteral / decoded by unquoteString", p.Pos(fn.Pos()), "one call", "string literals are no longer unquoted")
+		// ... on every path: the decoder is also what refuses a token the lexer lets through but that is not a well-formed
+		// literal (a doubled quote inside, a dangling backslash). A fast path around it ("no backslash, nothing to decode")
+		// accepts `"a""b"` silently (round-5 seed C17/b). Every path from the entry to the hand-over of the literal
+		// (AcceptStringLiteral) passes the call.
+		if uq != nil && ok {
+			uqCall := findCalls(fn, matchStatic(uq))[0].(ssa.Instruction)
+			bypass := ""
+			for _, ci := range callsIn(fn) {
+				if !calleeNameIs(ci, "AcceptStringLiteral") {
+					continue
+				}
+				if t, path := reach(fn, nil, func(in ssa.Instruction) bool { return in == ci.(ssa.Instruction) }, func(in ssa.Instruction) bool { return in == uqCall }, nil); t != nil {
+					bypass = "the literal is handed over at " + p.InstrPos(t) + " on a path that does not decode it (" + strings.Join(pathString(p, path), " -> ") + ")"
+				}
+			}
+			c.Check(bypass == "", "ExitStringLiteral / no path around the decoder", p.Pos(fn.Pos()), "unquoteString on every path to AcceptStringLiteral", bypass+": what only the decoder refuses (a doubled quote inside the token, which the lexer admits) is accepted as a string constant with its raw text as value")
+		}
 		if uq != nil {
 			okChar, okMulti := false, false
 			for _, ci := range findCalls(uq, matchPkgFunc("strconv", "UnquoteChar")) {
